@@ -552,10 +552,11 @@ class Val:
                         raise Assume("NaN under uniqueItems")
             if k in ("list", "seq"):
                 return items
-            if k == "set":
-                return set(items)
-            if k == "fset":
-                return frozenset(items)
+            if k in ("set", "fset"):
+                v = set(items) if k == "set" else frozenset(items)
+                # the item-count constraints hold for the set itself (duplicates collapse)
+                self.constrain(cs, list(v), "arr")
+                return v
             return tuple(items)
         if k == "tuple":
             items = tuple(self.val(a, depth - 1) for a in s.a)
